@@ -338,7 +338,7 @@ def rename(self, old: str, new: str):
         created = create(self, new)
         d = self.mboxes[new]
         for x in m.msgs:
-            d.msgs.append(Msg(d.uidnext, x.cid, set(x.flags), None))
+            d.msgs.append(Msg(d.uidnext, x.cid, set(x.flags), x.idate))  # the messages are moved: internal date and flags go with them
             d.uidnext += 1
         m.msgs = []
         return created
